@@ -751,21 +751,50 @@ Qed.
 
 (* ------------------------------------------------------------------------------------------------ *)
 (* C08, itertools clause: every error-free traversal passes a checkpoint if its sources are synchronous or if it
-   yields nothing.  `good t`: the trace contains a checkpoint event or yields something. *)
-Definition good {A} (t : list (event A)) : Prop := has_ck t = true \/ yields t <> [].
+   yields nothing.  "Passes a checkpoint" = a cancellation check AND a real yield (passes_ck), and no element is handed
+   out before the first cancellation check (check_before_first_yield_value).
+   `good t`: the trace passes a checkpoint or yields something. *)
+Notation cbf := check_before_first_yield_value.
+Definition ckd {A} (t : list (event A)) : Prop := passes_ck t = true /\ cbf t = true.
+Definition good {A} (t : list (event A)) : Prop := passes_ck t = true \/ yields t <> [].
 
-Lemma has_ck_app {A} (a b : list (event A)) : has_ck (a ++ b) = has_ck a || has_ck b.
-Proof. apply existsb_app. Qed.
+Lemma passes_app_l {A} (a b : list (event A)) : passes_ck a = true -> passes_ck (a ++ b) = true.
+Proof.
+  unfold passes_ck. intros H. apply andb_prop in H as [H1 H2]. now rewrite !existsb_app, H1, H2.
+Qed.
 
-Lemma has_ck_pre {A} k : has_ck (@pre A k) = is_sync k.
-Proof. destruct k; reflexivity. Qed.
+Lemma passes_app_r {A} (a b : list (event A)) : passes_ck b = true -> passes_ck (a ++ b) = true.
+Proof.
+  unfold passes_ck. intros H. apply andb_prop in H as [H1 H2]. rewrite !existsb_app, H1, H2. now rewrite !orb_true_r.
+Qed.
 
-Lemma has_ck_pre_app {A} k (t : list (event A)) : has_ck (pre k ++ t) = is_sync k || has_ck t.
-Proof. now rewrite has_ck_app, has_ck_pre. Qed.
+Lemma passes_has_ck {A} (t : list (event A)) : passes_ck t = true -> has_ck t = true.
+Proof.
+  unfold passes_ck, has_ck. intros H. apply andb_prop in H as [H _]. apply existsb_exists in H as (e & I & E).
+  apply existsb_exists. exists e. split; [exact I|]. destruct e; cbn in *; congruence.
+Qed.
+
+Lemma cbf_no_yield {A} (t : list (event A)) : yields t = [] -> cbf t = true.
+Proof. induction t as [|e r IH]; [reflexivity|]. destruct e; cbn; auto; discriminate. Qed.
+
+Lemma cbf_app_l {A} (a b : list (event A)) : existsb is_check a = true -> cbf a = true -> cbf (a ++ b) = true.
+Proof. induction a as [|e r IH]; [discriminate|]. destruct e; cbn; auto; discriminate. Qed.
+
+Lemma cbf_app_r {A} (a b : list (event A)) : yields a = [] -> cbf b = true -> cbf (a ++ b) = true.
+Proof. induction a as [|e r IH]; [auto|]. destruct e; cbn; auto; discriminate. Qed.
+
+Lemma ckd_app_l {A} (a b : list (event A)) : ckd a -> ckd (a ++ b).
+Proof.
+  intros [P C]. split; [now apply passes_app_l|]. apply cbf_app_l; [|exact C].
+  unfold passes_ck in P. now apply andb_prop in P as [_ P].
+Qed.
+
+Lemma ckd_app_r {A} (a b : list (event A)) : yields a = [] -> ckd b -> ckd (a ++ b).
+Proof. intros Y [P C]. split; [now apply passes_app_r|now apply cbf_app_r]. Qed.
 
 Lemma good_app_r {A} (a t : list (event A)) : good t -> good (a ++ t).
 Proof.
-  intros [H|H]; [left; rewrite has_ck_app, H; apply orb_true_r|].
+  intros [H|H]; [left; now apply passes_app_r|].
   right. rewrite yields_app. destruct (yields a); [exact H|discriminate].
 Qed.
 
@@ -778,22 +807,31 @@ Proof. apply good_app_r. left. reflexivity. Qed.
 Lemma good_tail {A} (a : list (event A)) : good (a ++ tail false).
 Proof. apply good_ck. Qed.
 
-Lemma good_use {A} (t : list (event A)) : good t -> yields t = [] -> has_ck t = true.
-Proof. intros [H|H] Y; [exact H|contradiction]. Qed.
+Lemma good_use {A} (t : list (event A)) : good t -> yields t = [] -> ckd t.
+Proof. intros [H|H] Y; [split; [exact H|now apply cbf_no_yield]|contradiction]. Qed.
 
-Lemma sync_pre {A} k (t : list (event A)) : is_sync k = true -> has_ck (pre k ++ t) = true.
-Proof. intros H. now rewrite has_ck_pre_app, H. Qed.
+Lemma sync_pre {A} k (t : list (event A)) : is_sync k = true -> ckd (pre k ++ t).
+Proof. destruct k; [split; reflexivity|discriminate]. Qed.
 
-Lemma has_ck_emit_sync {B} (vs : list B) : has_ck (emit_sync vs) = true.
-Proof. destruct vs; reflexivity. Qed.
+Lemma ckd_pre_ck {A} k : ckd (@pre A k ++ [Ck]).
+Proof. apply good_use; [apply good_ck|]. now rewrite yields_app, yields_pre. Qed.
+
+Lemma ckd_emit_sync {B} (vs : list B) : ckd (emit_sync vs).
+Proof. destruct vs; split; reflexivity. Qed.
+
+Lemma ckd_collect_emit {B} k l (vs : list B) : ckd (collect k l ++ emit_sync vs).
+Proof. apply ckd_app_r; [apply yields_collect|apply ckd_emit_sync]. Qed.
+
+Lemma ckd_collect_all_emit {B} ss (vs : list B) : ckd (collect_all ss ++ emit_sync vs).
+Proof. apply ckd_app_r; [apply yields_collect_all|apply ckd_emit_sync]. Qed.
 
 (* accumulate *)
 Theorem accumulate_checkpoints : forall f initial s,
   is_sync (fst s) = true \/ yields (fst (accumulate_model f initial s)) = [] ->
-  has_ck (fst (accumulate_model f initial s)) = true.
+  ckd (fst (accumulate_model f initial s)).
 Proof.
   intros f initial [k l] H. unfold accumulate_model in *. cbn [fst] in *.
-  destruct initial as [i|]; [reflexivity|].
+  destruct initial as [i|]; [split; reflexivity|].
   destruct l as [|x r]; cbn [fst] in *.
   - apply good_use; [apply good_ck|]. ysimp. reflexivity.
   - destruct H as [H|H]; [now apply sync_pre|]. revert H. ysimp. discriminate.
@@ -801,10 +839,10 @@ Qed.
 
 (* batched *)
 Lemma batched_go_starts n strict k l batch j :
-  is_sync k = true -> has_ck (fst (batched_go n strict k l batch j)) = true.
+  is_sync k = true -> ckd (fst (batched_go n strict k l batch j)).
 Proof.
   intros H. destruct l as [|x r]; cbn [batched_go].
-  - destruct batch; [|destruct strict]; cbn [fst]; rewrite ?has_ck_pre_app, ?has_ck_pre, H; reflexivity.
+  - destruct k; [|discriminate H]. destruct batch; [|destruct strict]; split; reflexivity.
   - destruct j as [|[|j]]; unfold tapp; cbn [fst]; rewrite <- ?app_assoc; now apply sync_pre.
 Qed.
 
@@ -822,7 +860,7 @@ Qed.
 Theorem batched_checkpoints : forall n strict s,
   snd (batched_model n strict s) = None ->
   is_sync (fst s) = true \/ yields (fst (batched_model n strict s)) = [] ->
-  has_ck (fst (batched_model n strict s)) = true.
+  ckd (fst (batched_model n strict s)).
 Proof.
   intros n strict [k l]. unfold batched_model. cbn [fst snd].
   destruct (n <? 1)%Z; [discriminate|]. intros He [H|H].
@@ -843,7 +881,7 @@ Qed.
 
 Theorem chain_checkpoints : forall ko ss,
   is_sync ko = true \/ yields (fst (chain_model ko ss)) = [] ->
-  has_ck (fst (chain_model ko ss)) = true.
+  ckd (fst (chain_model ko ss)).
 Proof.
   intros ko ss [H|H]; unfold chain_model in *; cbn [fst] in *.
   - destruct ss; cbn [chain_go]; now apply sync_pre.
@@ -852,31 +890,31 @@ Qed.
 
 (* the four delegating functions: the stdlib iterator is synchronous, so the adaptor always checkpoints *)
 Theorem combinations_checkpoints : forall r s,
-  snd (combinations_model r s) = None -> has_ck (fst (combinations_model r s)) = true.
+  snd (combinations_model r s) = None -> ckd (fst (combinations_model r s)).
 Proof.
   intros r s. unfold combinations_model. destruct (r <? 0)%Z; [discriminate|]. intros _. cbn [fst].
-  rewrite has_ck_app, has_ck_emit_sync. apply orb_true_r.
+  apply ckd_collect_emit.
 Qed.
 
 Theorem combinations_with_replacement_checkpoints : forall r s,
-  snd (cwr_model r s) = None -> has_ck (fst (cwr_model r s)) = true.
+  snd (cwr_model r s) = None -> ckd (fst (cwr_model r s)).
 Proof.
   intros r s. unfold cwr_model. destruct (r <? 0)%Z; [discriminate|]. intros _. cbn [fst].
-  rewrite has_ck_app, has_ck_emit_sync. apply orb_true_r.
+  apply ckd_collect_emit.
 Qed.
 
 Theorem permutations_checkpoints : forall r s,
-  snd (permutations_model r s) = None -> has_ck (fst (permutations_model r s)) = true.
+  snd (permutations_model r s) = None -> ckd (fst (permutations_model r s)).
 Proof.
   intros [r|] s; unfold permutations_model; [destruct (r <? 0)%Z; [discriminate|]|]; intros _; cbn [fst];
-    rewrite has_ck_app, has_ck_emit_sync; apply orb_true_r.
+    apply ckd_collect_emit.
 Qed.
 
 Theorem product_checkpoints : forall rep ss,
-  snd (product_model rep ss) = None -> has_ck (fst (product_model rep ss)) = true.
+  snd (product_model rep ss) = None -> ckd (fst (product_model rep ss)).
 Proof.
   intros rep ss. unfold product_model. destruct (rep <? 0)%Z; [discriminate|]. intros _. cbn [fst].
-  rewrite has_ck_app, has_ck_emit_sync. apply orb_true_r.
+  apply ckd_collect_all_emit.
 Qed.
 
 (* compress *)
@@ -889,7 +927,7 @@ Qed.
 
 Theorem compress_checkpoints : forall d s,
   is_sync (fst d) = true \/ yields (fst (compress_model d s)) = [] ->
-  has_ck (fst (compress_model d s)) = true.
+  ckd (fst (compress_model d s)).
 Proof.
   intros [kd d] [ks s] [H|H]; unfold compress_model in *; cbn [fst snd] in *.
   - destruct d; cbn [compress_go]; now apply sync_pre.
@@ -897,17 +935,17 @@ Proof.
 Qed.
 
 (* count *)
-Theorem count_checkpoints : forall start step k, 1 <= k -> has_ck (fst (count_model start step k)) = true.
-Proof. intros start step [|k] H; [lia|reflexivity]. Qed.
+Theorem count_checkpoints : forall start step k, 1 <= k -> ckd (fst (count_model start step k)).
+Proof. intros start step [|k] H; [lia|split; reflexivity]. Qed.
 
 (* cycle *)
 Theorem cycle_checkpoints : forall s k, 1 <= k ->
   is_sync (fst s) = true \/ yields (fst (cycle_model s k)) = [] ->
-  has_ck (fst (cycle_model s k)) = true.
+  ckd (fst (cycle_model s k)).
 Proof.
   intros [kd l] [|k] Hk H; [lia|]. unfold cycle_model in *. cbn [fst snd] in *.
   destruct l as [|x r]; cbn [cycle_go] in *.
-  - rewrite has_ck_pre_app. cbn. apply orb_true_r.
+  - apply ckd_pre_ck.
   - destruct H as [H|H]; [now apply sync_pre|]. revert H. ysimp. discriminate.
 Qed.
 
@@ -920,7 +958,7 @@ Qed.
 
 Theorem dropwhile_checkpoints : forall p s,
   is_sync (fst s) = true \/ yields (fst (dropwhile_model p s)) = [] ->
-  has_ck (fst (dropwhile_model p s)) = true.
+  ckd (fst (dropwhile_model p s)).
 Proof.
   intros p [k l] [H|H]; unfold dropwhile_model in *; cbn [fst snd] in *.
   - destruct l; cbn [dropwhile_go]; now apply sync_pre.
@@ -935,7 +973,7 @@ Qed.
 
 Theorem filterfalse_checkpoints : forall p s,
   is_sync (fst s) = true \/ yields (fst (filterfalse_model p s)) = [] ->
-  has_ck (fst (filterfalse_model p s)) = true.
+  ckd (fst (filterfalse_model p s)).
 Proof.
   intros p [k l] [H|H]; unfold filterfalse_model in *; cbn [fst snd] in *.
   - destruct l; cbn [filterfalse_go]; now apply sync_pre.
@@ -950,7 +988,7 @@ Qed.
 
 Theorem takewhile_checkpoints : forall p s,
   is_sync (fst s) = true \/ yields (fst (takewhile_model p s)) = [] ->
-  has_ck (fst (takewhile_model p s)) = true.
+  ckd (fst (takewhile_model p s)).
 Proof.
   intros p [k l] [H|H]; unfold takewhile_model in *; cbn [fst snd] in *.
   - destruct l; cbn [takewhile_go]; now apply sync_pre.
@@ -966,18 +1004,18 @@ Qed.
 
 Theorem groupby_checkpoints : forall same key s,
   is_sync (fst s) = true \/ yields (fst (groupby_model same key s)) = [] ->
-  has_ck (fst (groupby_model same key s)) = true.
+  ckd (fst (groupby_model same key s)).
 Proof.
   intros same key [k l] H. unfold groupby_model in *. cbn [fst snd] in *.
   destruct l as [|x r]; cbn [fst] in *.
-  - rewrite has_ck_pre_app. cbn. apply orb_true_r.
+  - apply ckd_pre_ck.
   - destruct H as [H|H]; [now apply sync_pre|]. revert H. ysimp. intros H.
     now apply groupby_loop_good in H.
 Qed.
 
 (* islice *)
-Lemma sync_poll {A} k (t : list (event A)) : is_sync k = true -> has_ck (poll k ++ t) = true.
-Proof. destruct k; [reflexivity|discriminate]. Qed.
+Lemma sync_poll {A} k (t : list (event A)) : is_sync k = true -> ckd (poll k ++ t).
+Proof. destruct k; [split; reflexivity|discriminate]. Qed.
 
 Lemma islice_go_good k start stop step : forall l index, good (islice_go k start stop step l index false).
 Proof.
@@ -987,15 +1025,15 @@ Proof.
 Qed.
 
 Lemma islice_go_starts k start stop step l index :
-  is_sync k = true -> has_ck (islice_go k start stop step l index false) = true.
+  is_sync k = true -> ckd (islice_go k start stop step l index false).
 Proof.
-  intros H. destruct l; cbn [islice_go]; destruct (below index stop); try reflexivity; now apply sync_poll.
+  intros H. destruct l; cbn [islice_go]; destruct (below index stop); try (split; reflexivity); now apply sync_poll.
 Qed.
 
 Lemma islice3_checkpoints a b c s :
   snd (islice_model3 a b c s) = None ->
   is_sync (fst s) = true \/ yields (fst (islice_model3 a b c s)) = [] ->
-  has_ck (fst (islice_model3 a b c s)) = true.
+  ckd (fst (islice_model3 a b c s)).
 Proof.
   unfold islice_model3.
   destruct (neg_opt a); [discriminate|]. destruct (neg_opt b); [discriminate|].
@@ -1007,7 +1045,7 @@ Qed.
 Theorem islice_checkpoints : forall args s,
   snd (islice_model args s) = None ->
   is_sync (fst s) = true \/ yields (fst (islice_model args s)) = [] ->
-  has_ck (fst (islice_model args s)) = true.
+  ckd (fst (islice_model args s)).
 Proof.
   intros args s.
   destruct args as [|a [|b [|c [|d rest]]]]; try discriminate.
@@ -1019,36 +1057,36 @@ Qed.
 (* pairwise *)
 Theorem pairwise_checkpoints : forall s,
   is_sync (fst s) = true \/ yields (fst (pairwise_model s)) = [] ->
-  has_ck (fst (pairwise_model s)) = true.
+  ckd (fst (pairwise_model s)).
 Proof.
   intros [k l] H. unfold pairwise_model in *. cbn [fst snd] in *.
   destruct l as [|x r]; cbn [fst] in *.
-  - rewrite has_ck_pre_app. cbn. apply orb_true_r.
+  - apply ckd_pre_ck.
   - destruct H as [H|H]; [now apply sync_pre|].
     destruct r as [|y r]; cbn [pairwise_loop] in *.
-    + rewrite !has_ck_pre_app. cbn. rewrite !orb_true_r. reflexivity.
+    + apply good_use; [apply good_app_r, good_ck|]. now rewrite !yields_app, !yields_pre.
     + revert H. ysimp. discriminate.
 Qed.
 
 (* repeat *)
 Theorem repeat_checkpoints : forall x times k, (times = None -> 1 <= k) ->
-  has_ck (fst (repeat_model x times k)) = true.
+  ckd (fst (repeat_model x times k)).
 Proof.
   intros x [t|] k H; unfold repeat_model.
-  - destruct (Z.leb_spec t 0); [reflexivity|]. cbn [fst].
-    destruct (zn t) eqn:E; [unfold zn in E; lia|reflexivity].
-  - destruct k; [specialize (H eq_refl); lia|reflexivity].
+  - destruct (Z.leb_spec t 0); [split; reflexivity|]. cbn [fst].
+    destruct (zn t) eqn:E; [unfold zn in E; lia|split; reflexivity].
+  - destruct k; [specialize (H eq_refl); lia|split; reflexivity].
 Qed.
 
 (* starmap *)
 Theorem starmap_checkpoints : forall f ko ss,
   is_sync ko = true \/ yields (fst (starmap_model f ko ss)) = [] ->
-  has_ck (fst (starmap_model f ko ss)) = true.
+  ckd (fst (starmap_model f ko ss)).
 Proof.
   intros f ko ss [H|H]; unfold starmap_model in *; cbn [fst] in *.
   - destruct ss; cbn [starmap_go]; now apply sync_pre.
   - destruct ss as [|s r]; cbn [starmap_go] in *.
-    + rewrite has_ck_pre_app. cbn. apply orb_true_r.
+    + apply ckd_pre_ck.
     + revert H. ysimp. discriminate.
 Qed.
 
@@ -1056,17 +1094,22 @@ Qed.
    the very first event is the cancellation check (nothing is consumed and the callback is not called before it),
    an error-free call really yields to the event loop (cancel_shielded_checkpoint), and when the caller's scope is
    already cancelled the check raises and nothing at all is consumed or called *)
+Lemma passes_ckif {A} (t : list (event A)) : passes_ck (CkIf :: t) = existsb is_yield t.
+Proof. unfold passes_ck. cbn. now rewrite andb_true_r. Qed.
+
 Theorem reduce_checkpoints : forall f initial s,
   hd_error (fst (reduce_model f initial s false)) = Some CkIf /\
-  (snd (reduce_model f initial s false) = None -> has_yield (fst (reduce_model f initial s false)) = true).
+  (snd (reduce_model f initial s false) = None ->
+   passes_ck (fst (reduce_model f initial s false)) = true /\
+   check_before_first_yield_value (fst (reduce_model f initial s false)) = true).
 Proof.
   intros f initial [k l]. unfold reduce_model. cbn [snd].
   destruct initial as [i|].
-  - destruct (reduce_loop f i l) as [ev v]. cbn. split; [reflexivity|]. intros _.
-    unfold has_yield. rewrite existsb_app. cbn. apply orb_true_r.
+  - destruct (reduce_loop f i l) as [ev v]. cbn [fst snd]. split; [reflexivity|]. intros _.
+    split; [|reflexivity]. rewrite passes_ckif, existsb_app. cbn. apply orb_true_r.
   - destruct l as [|x r]; [cbn; split; [reflexivity|discriminate]|].
-    destruct (reduce_loop f x r) as [ev v]. cbn. split; [reflexivity|]. intros _.
-    unfold has_yield. rewrite existsb_app. cbn. apply orb_true_r.
+    destruct (reduce_loop f x r) as [ev v]. cbn [fst snd]. split; [reflexivity|]. intros _.
+    split; [|reflexivity]. rewrite passes_ckif. cbn [existsb is_yield orb]. rewrite existsb_app. cbn. apply orb_true_r.
 Qed.
 
 Theorem reduce_cancelled : forall f initial s,
@@ -1083,7 +1126,7 @@ Theorem reduce_pre_F22_refuted_pinned :
 Proof. exists Z.add, None, (KSync, [1; 2; 3]%Z). vm_compute. auto. Qed.
 
 (* zip_longest *)
-Lemma zl_round_none_ck fill : forall its na ev, zl_round fill its na false = (ev, None) -> has_ck ev = true.
+Lemma zl_round_none_ck fill : forall its na ev, zl_round fill its na false = (ev, None) -> passes_ck ev = true.
 Proof.
   induction its as [|it rest IH]; intros na ev H; cbn [zl_round] in H; [discriminate|].
   destruct (negb (zactive it)).
@@ -1091,15 +1134,15 @@ Proof.
     injection H as <-. eapply IH, R.
   - destruct (zrest it) as [|x xs].
     + destruct (pred na) as [|m] eqn:P.
-      * injection H as <-. rewrite has_ck_pre_app. cbn. apply orb_true_r.
+      * injection H as <-. apply passes_app_r. reflexivity.
       * destruct (zl_round fill rest (S m) false) as [ev' [[[vs its'] na']|]] eqn:R; [discriminate|].
-        injection H as <-. rewrite has_ck_pre_app, (IH _ _ R). apply orb_true_r.
+        injection H as <-. apply passes_app_r, (IH _ _ R).
     + destruct (zl_round fill rest na false) as [ev' [[[vs its'] na']|]] eqn:R; [discriminate|].
-      injection H as <-. rewrite has_ck_pre_app, (IH _ _ R). apply orb_true_r.
+      injection H as <-. apply passes_app_r, (IH _ _ R).
 Qed.
 
 Lemma zl_round_starts fill it rest na y :
-  zactive it = true -> is_sync (zk it) = true -> has_ck (fst (zl_round fill (it :: rest) na y)) = true.
+  zactive it = true -> is_sync (zk it) = true -> ckd (fst (zl_round fill (it :: rest) na y)).
 Proof.
   intros Ha Hs. cbn [zl_round]. rewrite Ha. cbn [negb].
   destruct (zrest it).
@@ -1110,11 +1153,11 @@ Qed.
 
 Theorem zip_longest_checkpoints : forall fill ss,
   all_sync ss = true \/ yields (fst (zip_longest_model fill ss)) = [] ->
-  has_ck (fst (zip_longest_model fill ss)) = true.
+  ckd (fst (zip_longest_model fill ss)).
 Proof.
   intros fill ss H. unfold zip_longest_model in *.
   destruct (zip_longest_run_spec fill ss) as (t & E & _). rewrite E in *. cbn [fst] in *.
-  destruct ss as [|s0 r0]; [injection E as <-; reflexivity|].
+  destruct ss as [|s0 r0]; [injection E as <-; split; reflexivity|].
   unfold zip_longest_run in E. cbn [zl_loop map] in E.
   set (it0 := mkZ (fst s0) (snd s0) true) in *.
   match type of E with
@@ -1124,10 +1167,13 @@ Proof.
   end.
   - destruct (zl_loop (total_len (s0 :: r0)) fill its' na' true) as [t'|]; [|discriminate].
     injection E as <-. destruct H as [H|H].
-    + cbn in H. apply andb_prop in H as [H _]. rewrite has_ck_app. cbn [fst] in St.
-      rewrite St; [reflexivity|]. unfold it0. cbn. destruct (fst s0); [reflexivity|discriminate].
+    + cbn in H. apply andb_prop in H as [H _]. cbn [fst] in St. apply ckd_app_l, St.
+      unfold it0. cbn. destruct (fst s0); [reflexivity|discriminate].
     + revert H. ysimp. destruct (yields ev); discriminate.
-  - injection E as <-. eapply zl_round_none_ck, R.
+  - injection E as <-. destruct H as [H|H].
+    + cbn in H. apply andb_prop in H as [H _]. cbn [fst] in St. apply St.
+      unfold it0. cbn. destruct (fst s0); [reflexivity|discriminate].
+    + apply good_use; [left; eapply zl_round_none_ck, R|exact H].
 Qed.
 
 (* ------------------------------------------------------------------------------------------------ *)
@@ -1210,5 +1256,6 @@ Example oracle_ex :
 Proof. vm_compute. auto. Qed.
 (* the hypothesis "asynchronous source and something was yielded" really is outside the checkpoint guarantee *)
 Example async_nonempty_has_no_checkpoint :
-  has_ck (fst (filterfalse_model (fun _ => false) (KAsync, [1; 2]))) = false.
-Proof. reflexivity. Qed.
+  has_ck (fst (filterfalse_model (fun _ => false) (KAsync, [1; 2]))) = false /\
+  check_before_first_yield_value (fst (filterfalse_model (fun _ => false) (KAsync, [1; 2]))) = false.
+Proof. split; reflexivity. Qed.
